@@ -125,6 +125,24 @@ theorem counter_monotone (c : CallCtx) (start : Nat) (sev : Int) : start ≤ (lo
     · exact emit_counter c start sev
   · exact Nat.le_refl _
 
+/-- (5b) The converse of (5): a second record appears only if an attempt of the call's own record
+    failed, the record was not a warning, the call was admitted and the logger admits warnings —
+    so over a history there are never more diagnostics than calls with a failed attempt. -/
+theorem diagnostic_only_after_failure (c : CallCtx) (start : Nat) (sev : Int)
+    (h : (logCall c start sev).1.length = 2) :
+    Gen.enabled c.g c.level sev = true ∧ (emitRecord c start sev).2.1 = true ∧ sev ≠ Lv.warn ∧
+    Gen.enabled c.g c.level Lv.warn = true := by
+  rw [logCall_proj] at h
+  by_cases ha : Gen.enabled c.g c.level sev = true
+  · by_cases hf : Gen.warnOnFailure (emitRecord c start sev).2.1 sev = true
+    · by_cases hw : Gen.enabled c.g c.level Lv.warn = true
+      · rw [warnOnFailure_spec] at hf
+        simp only [Bool.and_eq_true, bne_iff_ne, ne_eq] at hf
+        exact ⟨ha, hf.1, hf.2, hw⟩
+      · simp [ha, hf, warnRecord, hw] at h
+    · simp [ha, hf] at h
+  · simp [ha] at h
+
 /-- (9) Over any sequence of calls and any failure schedule: one entry per call, and every call
     produces at most two records (its own and at most one diagnostic) — the reaction is bounded
     per call for the whole history, so a history of `n` calls never produces more than `2 n`. -/
